@@ -139,5 +139,9 @@ long sym_random ();
 #ifdef SYMX_SCRIPT_RANDOM
 #define random sym_random
 #endif
+#ifdef SYMX_SCRIPT_RANDOM_SCALAR   // random () delivers a scalar of the scripted stream (a symbolic integer-valued variable)
+double sym_random_scalar ();
+#define random sym_random_scalar
+#endif
 
 #endif
